@@ -44,8 +44,12 @@ impl StateMachine<'_> {
                         .paint(commit.chars().take(12).collect::<String>()),
                 )?;
             }
+            Ok(true)
+        } else {
+            // Not a submodule line after all (e.g. a hunk line of an ordinary file that merely
+            // starts like one): leave it to the other handlers instead of dropping it.
+            Ok(false)
         }
-        Ok(true)
     }
 }
 
